@@ -14,6 +14,7 @@ package mapdb
 // at every map access), so every primitive touches M inside exactly one critical section.
 
 /*@
+global iteralloc Int     -- the allocation mark at the entry of the running iterate (ghost)
 type syncedKVMap
   monitor RWMutex level 3 guards map:m
 
@@ -242,11 +243,12 @@ func syncedKVMap.iterateKeys
 func syncedKVMap.iterate
   opt twophase
   requires s != nil && s.m != nil && unlocked(s.RWMutex)
+  ghost at entry: iteralloc = $alloc
   callback consume(k, v) (cont)
     opt nolocks
     opt nolocks
-    requires fresh(v)          -- the consumer gets a private copy of the value: writing into them cannot reach the store
-  modifies monitor(s)
+    requires base(v) == 0 || base(v) >= iteralloc          -- the consumer gets a private copy of the value (allocated by this call), never the stored slice: writing into them cannot reach the store
+  modifies monitor(s), ghost(iteralloc)
   loop 1 invariant rheld(s.RWMutex) && copiedElements != nil && fresh(copiedElements) && (forall k Str :: has(copiedElements, k) ==> hasprefix(k, prefix) && fresh(copiedElements[k]))
   loop 2 invariant unlocked(s.RWMutex) && fresh(keysSlice) && (forall i Int :: 0 <= i && i < len(keysSlice) ==> hasprefix(keysSlice[i], prefix)) && (forall k Str :: has(copiedElements, k) ==> fresh(copiedElements[k]))
   loop 3 invariant unlocked(s.RWMutex) && (forall k Str :: has(copiedElements, k) ==> fresh(copiedElements[k]))
